@@ -70,6 +70,19 @@ Section DictP.
       + now apply IH.
   Qed.
 
+  (* Python's d[k] = v followed by a lookup *)
+  Lemma dget_dset : forall B (d : list (K * B)) k v k',
+    dget keqb k' (dset keqb k v d) = if keqb k' k then Some v else dget keqb k' d.
+  Proof.
+    induction d as [|[k0 v0] r IH]; intros k v k'; simpl.
+    - reflexivity.
+    - destruct (keqb k k0) eqn:E; simpl.
+      + apply kspec in E. subst k0. destruct (keqb k' k); reflexivity.
+      + rewrite IH. destruct (keqb k' k0) eqn:E0; [|reflexivity].
+        apply kspec in E0. subst k0. destruct (keqb k' k) eqn:E1; [|reflexivity].
+        apply kspec in E1. subst k'. rewrite keqb_refl in E. discriminate.
+  Qed.
+
   Lemma lmem_true_iff : forall (l : list K) k, lmem keqb k l = true <-> In k l.
   Proof.
     intros l k. unfold lmem. rewrite existsb_exists. split.
@@ -92,6 +105,25 @@ Proof.
       * now rewrite <- app_assoc.
       * rewrite map_app. simpl. rewrite <- app_assoc. exact ND.
     + apply (dget_none_iff _ _ kspec). apply NoDup_remove_2 in ND. intros H. apply ND. apply in_or_app. now left.
+Qed.
+
+Lemma enum_fold_get : forall K (keqb : K -> K -> bool) (kspec : forall x y, keqb x y = true <-> x = y)
+    (ivs : list (nat * K)) (d : list (K * nat)) k,
+  (forall j, dget keqb k (fold_left (fun d iv => dset keqb (snd iv) (fst iv) d) ivs d) = Some j ->
+     dget keqb k d = Some j \/ In (j, k) ivs) /\
+  (dget keqb k (fold_left (fun d iv => dset keqb (snd iv) (fst iv) d) ivs d) = None <->
+     dget keqb k d = None /\ ~ In k (map snd ivs)).
+Proof.
+  intros K keqb kspec. induction ivs as [|[i v] r IH]; intros d k; simpl.
+  - split; [auto|]. tauto.
+  - destruct (IH (dset keqb v i d) k) as [I1 I2]. rewrite (dget_dset K keqb kspec) in I1, I2. split.
+    + intros j Hj. destruct (I1 j Hj) as [H|H]; [|auto].
+      destruct (keqb k v) eqn:E; [|auto]. apply kspec in E. subst v. inversion H; subst. auto.
+    + rewrite I2. destruct (keqb k v) eqn:E.
+      * apply kspec in E. subst v. split; [intros [H _]; discriminate | intros [_ H]; exfalso; apply H; now left].
+      * apply (keqb_false K keqb kspec) in E. split; intros [H1 H2]; (split; [assumption|]).
+        -- intros [H|H]; [congruence | contradiction].
+        -- intros H. apply H2. now right.
 Qed.
 
 Lemma dget_combine_seq : forall K (keqb : K -> K -> bool) (kspec : forall x y, keqb x y = true <-> x = y)
